@@ -87,7 +87,7 @@ fn rand_script(sim: &Sim, rng: &mut StdRng) -> packed::Script {
         5 => args[..rng.gen_range(0..=args.len())].to_vec(),
         6 => [args, vec![0]].concat(),
         7 => [args, vec![0, 0]].concat(),
-        8 => [args, vec![rng.gen_range(1..=9)]].concat(),
+        8 => [args, vec![if rng.gen_bool(0.3) { 0xff } else { rng.gen_range(1..=9) }]].concat(),
         _ => vec![],
     };
     let mut s = base.as_builder().args(new_args.pack());
@@ -246,7 +246,16 @@ fn page_txs(sim: &mut Sim, q: &Q, order_desc: bool, limit: u32, cursor: Option<V
 fn scenario(rng: &mut StdRng, sc: usize, real_out: &mut dyn Write, kv: &HashMap<String, String>) -> (u64, Vec<String>) {
     let main_len = rng.gen_range(6..=arg_u64(kv, "maxlen", 16) as usize);
     let interval = 4u64;
-    let built = super::filtersync::build_tx_world(rng, "dummy", main_len, 0, 1, arg_u64(kv, "maxtxs", 4) as usize);
+    // the usual scripts plus some whose args end in 0xff (the byte after which a key prefix has no successor of the
+    // same length: where "the first key after this prefix" computations go wrong)
+    let mut scripts = crate::verif::gen::default_scripts();
+    {
+        use crate::verif::world::WScript;
+        scripts.push(WScript { code: 1, hash_type: 0, args: vec![1, 0xff] });
+        scripts.push(WScript { code: 1, hash_type: 0, args: vec![0xff] });
+        scripts.push(WScript { code: 2, hash_type: 1, args: vec![0xff, 0xff] });
+    }
+    let built = super::filtersync::build_tx_world_with(rng, "dummy", main_len, 0, 1, arg_u64(kv, "maxtxs", 4) as usize, 0.0, scripts);
     let cfg = Config { last_n: 3, max_outbound: 1, interval, blocks_in_transit: 4, ..Default::default() };
     let leaf = built.leaves[0];
     let name = format!("query-{}", sc);
